@@ -112,6 +112,10 @@ func (c *ctx) has(kind string) bool {
 // generic: clauses that hold for every run with a tacquito server (C14: no panic).
 func (c *ctx) generic() {
 	for _, e := range c.r.Events {
+		if e.Kind == "published-mutated" {
+			c.v("C15/published-config-written", "configurations published to the server (indices %s) were written afterwards: serving requests or later loads modified a published value", e.S)
+			c.v("C16/published-config-modified", "configurations published to the server (indices %s) no longer equal their snapshot", e.S)
+		}
 		if e.Kind == "panic" {
 			first := e.S
 			if i := strings.Index(first, "\n"); i > 0 {
